@@ -3,6 +3,7 @@ package main
 import (
 	"fmt"
 	"go/token"
+	"regexp"
 	"strings"
 
 	"golang.org/x/tools/go/ssa"
@@ -142,6 +143,7 @@ func ruleLEADINGDIGIT(c *Ctx) {
 	}
 	// the store of '_' guarded by a digit test: the test must be conjoined with buf.Len() == 0 inside the rune loop
 	ok := false
+	var extra []string
 	var pos token.Pos = f.Pos()
 	loops := naturalLoops(f)
 	for _, b := range f.Blocks {
@@ -162,12 +164,31 @@ func ruleLEADINGDIGIT(c *Ctx) {
 				return pol && strings.Contains(p, "Builder.Len(") && strings.HasSuffix(p, "== 0)")
 			}) {
 				ok = true
-				pos = ifi.Pos()
+				pos = ifi.Cond.Pos()
+				// ... and under nothing else inside the loop: the digit disjunct consists of
+				// buf.Len() == 0 and the two range tests of the rune only
+				lp := innermostLoop(loops, b)
+				for _, g := range flattenConds(governing(b)) {
+					if !lp.Body[g.If.Block()] || g.If.Block() == lp.Header {
+						continue
+					}
+					gp := vpath(g.V)
+					_, _, gr, isCmp := cmpNorm(g.V, g.Pol)
+					_, _, gl2, _ := cmpNorm(g.V, g.Pol)
+					_ = gl2
+					isRune := isCmp && (regexp.MustCompile(`^\d+$`).MatchString(gr) || regexp.MustCompile(`^\d+$`).MatchString(func() string { l, _, _, _ := cmpNorm(g.V, g.Pol); return l }()))
+					if strings.Contains(gp, "Builder.Len(") || isRune {
+						continue
+					}
+					extra = append(extra, normalizePhi(gp))
+				}
 			}
 		}
 	}
 	key := "util/ident.Produce:leading-digit"
-	if ok {
+	if ok && len(extra) > 0 {
+		c.Bad(rule, key, pos, "the leading-digit test is additionally conditioned on %v: for names where that does not hold (unquoted _1, __2nd) an identifier starting with a digit is produced", extra)
+	} else if ok {
 		c.Ok(rule, key, pos, "an underscore is inserted when the first rune actually written (buf.Len() == 0) is a digit")
 	} else {
 		c.Bad(rule, key, pos, "the 'identifier cannot start with a digit' test must look at the first rune that is written (inside the rune loop, under buf.Len() == 0); names whose leading characters are dropped (_1, __7a) otherwise yield identifiers starting with a digit")
